@@ -146,10 +146,13 @@ func VerifC08_Vegas_DomainClosed() {
 }
 
 // VerifC08_Gradient2: same prior state (including the long-term average), final sample lo vs hi.
-// NOT REGISTERED (tier=off): the ratio (updated average)/(sample) needs nonlinear reasoning through
-// rounded operations that z3 4.8/5.1 answer `unknown` to at 120 s; Gradient2 is outside the C08 claim.
+// BUG-HUNTING ONLY (claims=none): the ratio (updated average)/(sample) needs nonlinear reasoning
+// through rounded operations that z3 4.8/5.1 answer `unknown` to, so nothing is claimed proved for
+// Gradient2; the harness runs the counter-example search (stage-1 models + concretisation of the
+// integer inputs, every candidate confirmed by exact concrete re-execution) under a short time-out
+// and reports only confirmed violations.
 //
-//verif:harness property=C08 theory=real tier=off timeout=120
+//verif:harness property=C08 theory=real tier=quick claims=none timeout=10
 func VerifC08_Gradient2() {
 	verifQuickSmooth = 1
 	a, _, window := verifGradient2State()
